@@ -102,7 +102,9 @@ type Sim struct {
 	timers     []*timer
 	pollers    []func() bool
 	seq        uint64
-	finalizers []finalizerRec
+	finalizers []*finalizerRec
+	// TrackReachability: recorded finalizers do not keep their objects alive (see SetFinalizer)
+	TrackReachability bool
 	// happens-before tracking (hb.go)
 	hbOff       bool
 	hbObj       map[any]VC
